@@ -229,10 +229,11 @@ class SymSeq(object):
     def find(self, sep, start=0, end=None):
         items = self._get()
         sep = items_of(sep)
-        n = len(items) if end is None else min(end, len(items))
+        # start/end are interpreted as in slice notation (negative values count from the end)
+        start, n, _ = slice(start, end).indices(len(items))
         m = len(sep)
-        if _concrete(items):
-            return _bytes(items).find(_bytes(sep) if _concrete(sep) else sep, start, n)
+        if _concrete(items) and _concrete(sep):
+            return _bytes(items).find(_bytes(sep), start, n)
         i = start
         while i + m <= n:
             if tb((eq_items(items[i:i + m], sep))):
@@ -584,7 +585,7 @@ class SymStr(SymSeq):
     def find(self, sep, start=0, end=None):
         items = self._get()
         sep = _str_items(sep)
-        n = len(items) if end is None else min(end, len(items))
+        start, n, _ = slice(start, end).indices(len(items))
         m = len(sep)
         i = start
         while i + m <= n:
@@ -631,6 +632,24 @@ class SymStr(SymSeq):
 
     def encode(self, encoding='utf-8', errors='strict'):
         enc = encoding.lower().replace('_', '-')
+        if enc in ('latin-1', 'latin1', 'iso-8859-1', 'iso8859-1', 'ascii', 'us-ascii'):
+            # one byte per code point; a code point outside the range is an error (strict) or '?' (replace): fork
+            lim = 0x100 if enc not in ('ascii', 'us-ascii') else 0x80
+            out = []
+            for cp in self._get():
+                if isinstance(cp, _int):
+                    ok = cp < lim
+                else:
+                    ok = bool(cp < lim)
+                if ok:
+                    out.append(cp if isinstance(cp, _int) else SymInt(z3.Extract(7, 0, cp.at(21)), 8))
+                elif errors == 'replace':
+                    out.append(0x3F)
+                elif errors == 'strict':
+                    raise UnicodeEncodeError(enc, '\uffff', 0, 1, 'ordinal not in range(%d) (symbolic)' % lim)
+                else:
+                    raise EngineLimit('SymStr.encode(%r, %r)' % (encoding, errors))
+            return mk_bytes(out)
         if enc not in ('utf-8', 'utf8'):
             raise EngineLimit('SymStr.encode(%r)' % encoding)
         if self.cps is None:
@@ -760,6 +779,13 @@ def decode_items(items, encoding='utf-8', errors='strict'):
     enc = encoding.lower().replace('_', '-')
     if _concrete(items):
         return _bytes(items).decode(encoding, errors)
+    if enc in ('utf-8-sig', 'utf8-sig'):
+        # as utf-8, minus ONE leading byte-order mark EF BB BF
+        if len(items) >= 3:
+            a, b, c3 = [SymInt.lift(x).at(8) for x in items[:3]]
+            if Ctx.cur.branch(z3.And(a == 0xEF, b == 0xBB, c3 == 0xBF)):
+                return decode_items(items[3:], 'utf-8', errors)
+        return decode_items(items, 'utf-8', errors)
     if enc in ('utf-8', 'utf8'):
         if errors != 'strict':
             raise EngineLimit('utf-8 decode with errors=%r on symbolic bytes' % errors)
